@@ -32,11 +32,12 @@ pub struct Stats {
     pub outcomes: BTreeMap<String, u64>,
     pub counters: BTreeMap<String, u64>,
     pub failures: Vec<Failure>,
+    pub failure_keys: Vec<u64>,
     pub failures_dropped: u64,
     pub samples: Vec<Value>,
 }
 
-pub const MAX_FAILS_PER_WORKER: usize = 400;
+pub const MAX_FAILS_PER_CLASS: usize = 25;
 
 impl Stats {
     pub fn new() -> Self {
@@ -52,11 +53,15 @@ impl Stats {
         self.nontrivial_hashes.push(h);
     }
     pub fn fail(&mut self, f: Failure) {
-        if self.failures.len() < MAX_FAILS_PER_WORKER {
+        // cap per (signature, predicates) class so that a frequent known class can never crowd
+        // out a different failure
+        let key = crate::harness::fnv(format!("{}|{:?}", f.sig, f.preds).as_bytes());
+        let n = self.failure_keys.iter().filter(|k| **k == key).count();
+        if n < MAX_FAILS_PER_CLASS {
             self.failures.push(f);
+            self.failure_keys.push(key);
         } else {
-            // keep the smallest ones
-            if let Some((i, _)) = self.failures.iter().enumerate().max_by_key(|(_, x)| x.size) {
+            if let Some((i, _)) = self.failures.iter().enumerate().filter(|(i, _)| self.failure_keys[*i] == key).max_by_key(|(_, x)| x.size) {
                 if self.failures[i].size > f.size {
                     self.failures[i] = f;
                 }
@@ -84,6 +89,7 @@ impl Stats {
             *self.counters.entry(k).or_insert(0) += v;
         }
         self.failures.extend(o.failures);
+        self.failure_keys.extend(o.failure_keys);
         self.failures_dropped += o.failures_dropped;
         for s in o.samples {
             if self.samples.len() < 8 {
